@@ -442,12 +442,19 @@ def shrink(prop, failure, findings, budget=400):
     cur = failure
     steps = 0
     improved = True
+    # shrinking is a convenience, not part of the verdict: it gets a budget of steps AND of wall-clock time, and is skipped
+    # for inputs so large that every candidate costs the model many seconds (the size families)
+    import time as _time
+    t0 = _time.time()
+    src0 = (failure.case.meta or {}).get("src")
+    if isinstance(src0, str) and len(src0) > 20000:
+        return failure
     while improved and steps < budget:
         improved = False
         for cand in prop.shrink_candidates(cur.case):
             steps += 1
-            if steps > budget:
-                break
+            if steps > budget or _time.time() - t0 > 60:
+                return cur
             st = run_cases(prop, [cand], findings)
             if st["failures"]:
                 cur = st["failures"][0]
